@@ -15,6 +15,8 @@ from pyvc.models import components as CM
 
 def compile_setup(it, env):
     CM.init_ghost(it, env, env.lookup('options'))
+    it.ctx.ghost['check_parsed_text'] = True
+    it.ctx.ghost['sources_seq'] = env.lookup('self').fields['_sources'].seq     # the sources in the order added
 
 
 SELF = Obj('MibCompiler', _parser=Comp('parser'), _codegen=Comp('codegen'), _symbolgen=Comp('symbolgen'),
@@ -45,6 +47,47 @@ DISC = [
     'H() or forall(failedMibs, lambda k, v: k in processed and FAILST(processed[k]))',
     'H() or forall(processed, lambda k, v: FAILST(v) and k in failedMibs)',
     'H() or forall(parsedMibs, lambda k, v: k not in failedMibs)',
+    # C08 fetch_once: a name is looked up at most once, and a look-up asks every source at most once
+    'forall(lambda s_k: implies(s_k not in fetchedMibs, count(ghost("fetch_cnt"), s_k) == 0))',
+    'forall(lambda s_k: count(ghost("fetch_cnt"), s_k) <= len(self._sources))',
+    # C08 source_order: "missing" is reported only after every source was asked
+    'forall(processed, lambda k, v: implies(ST(v, "missing"), count(ghost("fetch_cnt"), k) == len(self._sources)))',
+    # C08 terminates: everything on the work list is a name of the (finite) universe
+    'forall(mibsToParse, lambda n: n in ghost("U"))',
+]
+# C08 closure / C07 accounted (all histories): every import of a parsed module and every requested name is parsed,
+# failed, looked up already or still queued; a name that was looked up is parsed, failed, or the look-up produced
+# modules of other names (ghost "resolved": the files found for it held at least one module)
+CLOSURE1 = [
+    'forall(parsedMibs, lambda k, v: forall(imports_of(v[2]), lambda n: '
+    'n in parsedMibs or n in failedMibs or n in fetchedMibs or n in members(mibsToParse)))',
+    'forall(mibnames, lambda n: n in parsedMibs or n in failedMibs or n in fetchedMibs or n in members(mibsToParse))',
+    'forall(fetchedMibs, lambda k: k in parsedMibs or k in failedMibs or k in ghost("resolved"))',
+    'forall(failedMibs, lambda k, v: k in processed)',
+    # without aliases a resolved name is the name of a parsed module
+    'H() or forall(ghost("resolved"), lambda k, v: k in parsedMibs)',
+]
+# ... and while one name is being looked up (it has left the queue and may be in neither map yet)
+CLOSURE2 = CLOSURE1[:2] + [
+    'forall(fetchedMibs, lambda k: k in parsedMibs or k in failedMibs or k in ghost("resolved") or k == mibname)',
+    'forall(failedMibs, lambda k, v: k in processed)',
+    'H() or forall(ghost("resolved"), lambda k, v: k in parsedMibs)',
+    'mibname in fetchedMibs',
+]
+# C08 terminates: lexicographic descent (|U - fetched|, len(work list)); the cardinality step is the set lemma
+# extras.c08_termination_lemma (cvc5, finite sets)
+STEP1 = {
+    'C08_work_list_shrinks_or_a_new_name_of_the_universe_is_looked_up':
+        '(same(fetchedMibs, prev(fetchedMibs)) and len(mibsToParse) == prev(len(mibsToParse)) - 1) or '
+        '(prev(mibsToParse[0]) not in prev(fetchedMibs) and prev(mibsToParse[0]) in ghost("U") and '
+        ' forall(lambda s_k: (s_k in fetchedMibs) == (s_k in prev(fetchedMibs) or s_k == prev(mibsToParse[0]))))',
+}
+# accounting after discovery (P0: the parsed modules at the end of discovery)
+ACC = [
+    'forall(P0, lambda k, v: forall(imports_of(v[2]), lambda n: n in P0 or n in processed or n in ghost("resolved")))',
+    'forall(mibnames, lambda n: n in P0 or n in processed or n in ghost("resolved"))',
+    'H() or forall(ghost("resolved"), lambda k, v: k in P0)',
+    'forall(lambda s_k: count(ghost("fetch_cnt"), s_k) <= len(self._sources))',
 ]
 
 # ---------------------------------------------------------------- "needs generating" (loops 4-5)
@@ -155,19 +198,34 @@ L12 = [
 ]
 
 LOOPS = {
-    1: {'invariant': DISC},
-    2: {'invariant': DISC + ['H() or mibname not in parsedMibs']},
-    3: {'invariant': DISC + ['ghost("h_trees") == _i', 'same(ghost("h_cur_req"), mibname)', 'H() or _i <= 1',
-                             'H() or implies(_i == 0, mibname not in parsedMibs)']},
-    4: {'invariant': L4 + L4_HEAD, 'snap': {'P0': 'parsedMibs'}},
-    5: {'invariant': L4 + L5_HEAD + ['mibname in parsedMibs']},
-    6: {'invariant': L6, 'snap': {'P1': 'parsedMibs'}},
-    7: {'invariant': L7, 'snap': {'F0': 'failedMibs'}},
-    8: {'invariant': L7 + ['mibname in failedMibs']},
-    9: {'invariant': L9, 'snap': {'B0': 'borrowedMibs', 'U1': 'builtMibs'}},
-    10: {'invariant': L9 + ['mibname in borrowedMibs']},
-    11: {'invariant': L11},
-    12: {'invariant': L12, 'snap': {'U2': 'builtMibs', 'FL2': 'failedMibs', 'PR2': 'processed'}},
+    1: {'invariant': DISC + CLOSURE1, 'step': STEP1},
+    2: {'invariant': DISC + CLOSURE2 + [
+        'H() or mibname not in parsedMibs',
+        # C08 source_order: sources are asked one after the other, each once; the next one is asked only when
+        # the previous one answered not-found or its text failed
+        'count(ghost("fetch_cnt"), mibname) == _i',
+        'implies(_i > 0, mibname in failedMibs or same(ghost("fetch_last")[mibname], "notfound"))']},
+    3: {'index': '_j', 'invariant': DISC + CLOSURE2 + [
+        'ghost("h_trees") == _j', 'same(ghost("h_cur_req"), mibname)', 'H() or _j <= 1',
+        'H() or implies(_j == 0, mibname not in parsedMibs)',
+        'H() or implies(_j > 0, mibname in parsedMibs)',
+        'implies(_j > 0, mibname in ghost("resolved"))',
+        'count(ghost("fetch_cnt"), mibname) <= len(self._sources)']},
+    4: {'invariant': L4 + L4_HEAD + ACC + ['forall(P0, lambda k, v: k in processed or k in parsedMibs)'],
+        'snap': {'P0': 'parsedMibs'}},
+    5: {'invariant': L4 + L5_HEAD + ACC + ['mibname in parsedMibs',
+                                           'forall(P0, lambda k, v: k in processed or k in parsedMibs)']},
+    6: {'invariant': L6 + ACC + ['forall(P0, lambda k, v: k in processed or k in parsedMibs or k in builtMibs)'],
+        'snap': {'P1': 'parsedMibs'}},
+    7: {'invariant': L7 + ACC + ['forall(P0, lambda k, v: k in processed or k in builtMibs)'],
+        'snap': {'F0': 'failedMibs'}},
+    8: {'invariant': L7 + ACC + ['mibname in failedMibs', 'forall(P0, lambda k, v: k in processed or k in builtMibs)']},
+    9: {'invariant': L9 + ACC + ['forall(P0, lambda k, v: k in processed or k in builtMibs)'],
+        'snap': {'B0': 'borrowedMibs', 'U1': 'builtMibs'}},
+    10: {'invariant': L9 + ACC + ['mibname in borrowedMibs', 'forall(P0, lambda k, v: k in processed or k in builtMibs)']},
+    11: {'invariant': L11 + ACC + ['forall(P0, lambda k, v: k in processed or k in builtMibs)']},
+    12: {'invariant': L12 + ACC + ['forall(P0, lambda k, v: k in processed or k in builtMibs)'],
+         'snap': {'U2': 'builtMibs', 'FL2': 'failedMibs', 'PR2': 'processed'}},
 }
 
 CONTRACTS = [
@@ -185,13 +243,24 @@ CONTRACTS = [
         params={'self': SELF, 'mibnames': TupOf(Str), 'options': MapOf()},
         setup=compile_setup, defs=DEFS, heavy=True,
         inline=['MibStatus.setOptions'],
-        requires=[],
+        # U: the finite universe of module names the sources can mention (assumption of the termination argument;
+        # the symbol-table model promises that every imported name lies in it)
+        ghost={'U': SetOf()},
+        requires=['forall(mibnames, lambda n: n in ghost("U"))'],
         loops=LOOPS,
         at_return={
             1: {   # the failure gate
                 'C09_nothing_written': 'ghost("puts_total") == 0',
                 'C09_built_unprocessed': 'forall(builtMibs, lambda k, v: k in processed and ST(processed[k], "unprocessed"))',
                 'C09_gate_condition': 'truthy(failedMibs) and not truthy(options.get("ignoreErrors"))',
+                # every parsed module, and everything it imports, has a status - or (a file named unlike its module)
+                # the look-up of the imported name produced modules that have one
+                'C08_closure': 'forall(P0, lambda k, v: k in processed and '
+                               'forall(imports_of(v[2]), lambda n: n in processed or n in ghost("resolved")))',
+                'C08_closure_by_name': 'H() or forall(P0, lambda k, v: forall(imports_of(v[2]), lambda n: n in processed))',
+                'C07_accounted': 'forall(mibnames, lambda n: n in processed or n in ghost("resolved"))',
+                'C07_accounted_by_name': 'H() or forall(mibnames, lambda n: n in processed)',
+                'C08_fetch_once': 'forall(lambda s_k: count(ghost("fetch_cnt"), s_k) <= len(self._sources))',
             },
             2: {
                 'C07_write_once': 'forall(lambda s_k: count(ghost("puts_n"), s_k) <= 1)',
@@ -208,6 +277,14 @@ CONTRACTS = [
                     'k in ghost("put_ok"), same(ghost("put_ok")[k], ghost("borrow_by_name")[k])))',
                 'C19_compiled_never_replaced': 'H() or forall(ghost("gen_by_name"), lambda k, v: implies('
                     'k in ghost("put_ok"), same(ghost("put_ok")[k], v)))',
+                # every parsed module, and everything it imports, has a status - or (a file named unlike its module)
+                # the look-up of the imported name produced modules that have one
+                'C08_closure': 'forall(P0, lambda k, v: k in processed and '
+                               'forall(imports_of(v[2]), lambda n: n in processed or n in ghost("resolved")))',
+                'C08_closure_by_name': 'H() or forall(P0, lambda k, v: forall(imports_of(v[2]), lambda n: n in processed))',
+                'C07_accounted': 'forall(mibnames, lambda n: n in processed or n in ghost("resolved"))',
+                'C07_accounted_by_name': 'H() or forall(mibnames, lambda n: n in processed)',
+                'C08_fetch_once': 'forall(lambda s_k: count(ghost("fetch_cnt"), s_k) <= len(self._sources))',
                 'C09_ignore_errors_keeps_bad_status': 'H() or forall(PR2, lambda k, v: implies(FAILST(v), '
                     'k in processed and FAILST(processed[k])))',
             },
